@@ -185,7 +185,9 @@ def addMeta (dim : Nat) (g : Collected) : Meta → Except Err Collected
 
 /-! ## the heap -/
 
-/-- one entry of `cfg.applied_filters`; `args = none` ⇔ the dict has no `"args"` key (custom_maze_filter, 553-558) -/
+/-- one entry of `cfg.applied_filters`; `args = none` ⇔ the dict has no `"args"` key (cannot be produced by the
+    filters themselves any more — `custom_maze_filter` records `"args": ()` since commit 260593d — but a hand-written
+    config may still lack it, and `_load_applied_filters` then fails) -/
 structure FilterRec where
   name : String
   args : Option (List PyLit)
@@ -290,7 +292,9 @@ def collectMethod (h : Heap) (d : Nat) (clear inplace allowFail : Bool) : Except
   match h.view d with
   | none => .error .other
   | some (ds, c, vals) =>
-    if ds.gmc.isSome then .ok (h, d)                       -- already collected: `return dataset`
+    if ds.gmc.isSome then
+      -- already collected: `return dataset if inplace else copy.deepcopy(dataset)` (commit 9817574)
+      if inplace then .ok (h, d) else copyNew h c vals ds.gmc
     else
       match vals with
       | [] => .error .IndexError                             -- `dataset[0]` on an empty dataset
@@ -426,7 +430,7 @@ def applyReg (np : Percentile) (h : Heap) (d : Nat) (c : Call) : Except Err (Hea
 
 /-- `custom_maze_filter(method, **kwargs)` (543-560): `copy.deepcopy(self.cfg)` of the config only (muutils'
     `SerializableDataclass.__deepcopy__` = `load(serialize())`, so `_load_applied_filters` runs here too), the *same* maze
-    objects, a record WITHOUT `args` -/
+    objects, a record with `"args": ()` (commit 260593d) and the keyword arguments -/
 def customFilter (h : Heap) (d : Nat) (fname : String) (p : Maze → Bool) (kwargs : List (String × PyLit)) :
     Except Err (Heap × Nat) :=
   match h.view d with
@@ -435,7 +439,7 @@ def customFilter (h : Heap) (d : Nat) (fname : String) (p : Maze → Bool) (kwar
     if allArgs c.applied then
       let keep := ((ds.mazes.zip ms).filter (fun am => p am.2)).map (fun am => am.1)
       let h1 : Heap := { h with cfgs := h.cfgs ++ [c], dsets := h.dsets ++ [{ cfg := h.cfgs.length, mazes := keep, gmc := none }] }
-      finish h1 h.dsets.length { name := "__custom__:" ++ fname, args := none, kwargs := kwargs }
+      finish h1 h.dsets.length { name := "__custom__:" ++ fname, args := some [], kwargs := kwargs }
     else .error .ValueError
 
 inductive Op
@@ -444,7 +448,7 @@ inductive Op
 
 def Op.record : Op → FilterRec
   | .reg c => c.record
-  | .custom fname _ kw => { name := "__custom__:" ++ fname, args := none, kwargs := kw }
+  | .custom fname _ kw => { name := "__custom__:" ++ fname, args := some [], kwargs := kw }
 
 def applyOp (np : Percentile) (h : Heap) (d : Nat) : Op → Except Err (Heap × Nat)
   | .reg c => applyReg np h d c
